@@ -881,15 +881,18 @@ where
             .cache
             .get(&kh.key)
             .filter(|e| TrioArc::ptr_eq(e.value().entry_info(), entry.entry_info()))
-            .map(|e| Arc::clone(e.key()));
+            .map(|e| (Arc::clone(e.key()), TrioArc::ptr_eq(e.value(), &entry)));
         // Use the key object the map holds, so that the deque nodes do not keep a
         // second copy of the key alive.
-        let kh = match current_key {
-            Some(key) => KeyHash::new(key, kh.hash),
+        let (kh, is_latest) = match current_key {
+            Some((key, is_latest)) => (KeyHash::new(key, kh.hash), is_latest),
             None => return,
         };
 
-        entry.set_dirty(false);
+        // The entry stays dirty while a newer update of it is still queued.
+        if is_latest {
+            entry.set_dirty(false);
+        }
 
         if entry.is_admitted() {
             // The entry has been already admitted, so treat this as an update.
@@ -979,6 +982,17 @@ where
                 // Add the candidate to the deques.
                 self.handle_admit(kh, &entry, new_weight, deqs, counters);
             }
+            AdmissionResult::Rejected { skipped_nodes: s } if !s.is_empty() => {
+                // Some potential victims could not be examined because their state
+                // is in flux: they have been invalidated, or updated, and the write
+                // op that will tell so is still behind this one in the queue. What
+                // they occupy (and where they are in the LRU order) is outdated, so
+                // the rejection may be unjustified. Admit the candidate; if the cache
+                // is really over its capacity, the size-based eviction at the end of
+                // this sync run will restore it.
+                skipped_nodes = s;
+                self.handle_admit(kh, &entry, new_weight, deqs, counters);
+            }
             AdmissionResult::Rejected { skipped_nodes: s } => {
                 skipped_nodes = s;
                 // Remove the candidate from the cache (hash map).
@@ -1045,6 +1059,9 @@ where
                 if let Some(vic_entry) = cache
                     .get(vic_elem.key())
                     .filter(|v| std::ptr::eq(&**v.entry_info(), vic_elem.entry_info()))
+                    // An entry with a pending update is the most recently used one;
+                    // its position and weight here are outdated.
+                    .filter(|v| !v.is_dirty())
                 {
                     victims.add_policy_weight(vic_entry.policy_weight());
                     victims.add_frequency(freq, vic_elem.hash());
